@@ -48,6 +48,8 @@ Fixpoint ren_need (r : ren) (n : need O) : need O :=
   | NDone t => NDone (lk (rt r) t)
   | NDoneAux k f => NDoneAux (ren_sel r k) f
   | NStatus t s => NStatus (lk (rt r) t) s
+  | NUpdated v mk => NUpdated (lk (rv r) v) mk
+  | NChanged v mk => NChanged (lk (rv r) v) mk
   | NNot n' => NNot (ren_need r n')
   end.
 
@@ -61,6 +63,8 @@ Definition ren_act (r : ren) (a : act O) : act O :=
   | AFiat c t => AFiat c (lk (rt r) t)
   | ADone ts => ADone (map (lk (rt r)) ts)
   | ADeactivize x => ADeactivize (lk (rt r) x)
+  | AMarkU mk tr => AMarkU mk tr
+  | AMarkC v mk => AMarkC (lk (rv r) v) mk
   end.
 
 Definition ren_pact (r : ren) (p : pact O) : pact O :=
